@@ -126,6 +126,28 @@ func SafeProbe(a int, key []byte, next []any) []any {
 	return step(a, key, next)
 }
 
+// Overloads: two pairs of methods that end up under one manifest name each
+// (see compileProbe): "ovProbe" = a non-safe method of two parameters listed
+// first and a SAFE one of three parameters; "voProbe" = a SAFE method of two
+// parameters listed first and a non-safe one of three. Chains call the
+// three-parameter ones: what the engine strips and checks must follow the
+// overload that runs, not the first method of that name.
+func OvShort(a int, key []byte) []any {
+	return step(a, key, []any{})
+}
+
+func OvProbe(a int, key []byte, next []any) []any {
+	return step(a, key, next)
+}
+
+func VoShort(a int, key []byte) []any {
+	return step(a, key, []any{})
+}
+
+func VoProbe(a int, key []byte, next []any) []any {
+	return step(a, key, next)
+}
+
 // TryProbe is Probe whose relayed call is wrapped in try/catch; a fault of the
 // callee is swallowed and [flags, -1] returned.
 func TryProbe(a int, key []byte, next []any) (res []any) {
